@@ -132,6 +132,11 @@ class Constructor:
     syntax = None
     patterns = ()
 
+    # Set this on a constructor which is a register itself, as opposed to
+    # a memory location addressed by its registers. If the operand holding
+    # such a constructor is marked as written, the register is defined.
+    is_reg_target = False
+
     def __init__(self, *args, **kwargs):
         # Generate constructor from args:
         if self.syntax:
@@ -356,6 +361,11 @@ class Instruction(Constructor, metaclass=InsMeta):
         for p, o in self.leaves:
             if p._write:
                 s.append(p.__get__(o))
+        for p in self.properties:
+            if p.is_constructor and p._write:
+                c = p.__get__(self)
+                if c.is_reg_target:
+                    s.extend(q.__get__(o) for q, o in c.leaves)
         s.extend(self.extra_defs)
         return s
 
